@@ -49,6 +49,13 @@ def tmpl(db, entry, opt=None):
     return out
 
 
+def extra_env(t):
+    """the data-dependent tests a template's path took (beyond the plain option flags): part of what identifies the environment"""
+    import re as _re
+    ex = sorted((k, v) for k, v in t.decisions.items() if not _re.fullmatch(r"consts\.[A-Za-z_0-9]+", k))
+    return "|" + ",".join(f"{k}={'T' if v else 'F'}" for k, v in ex) if ex else ""
+
+
 def envname(t):
     d = ",".join(f"{k.replace('consts.', '')}={'T' if v else 'F'}" for k, v in sorted(t.decisions.items())
                  if "ADD_" not in k)
@@ -292,12 +299,12 @@ def scp_cs(db, rep):
                 f' - tc["{tcname}"].kcals[month]',
             )
             got = equivalent_ineq(t, cap)
-            k = (t.opt_type, str(t.mc))
+            k = (t.opt_type, str(t.mc), extra_env(t), bool(got))
             if k in seen:
                 continue
             seen.add(k)
             rep.check(
-                bool(got), rule, f"Optimizer.{db.resources[flagname]['function']}[{t.opt_type}|months{t.mc}]",
+                bool(got), rule, f"Optimizer.{db.resources[flagname]['function']}[{t.opt_type}|months{t.mc}{extra_env(t)}]",
                 f"monthly use humans/(1-{WASTE_KEY[wkey]}/100) + feed + biofuel <= that month's output is not "
                 "among the constraints (wrong waste key, month index, sense or term)", loc=OPT,
                 detail=f"required: {cap} <= 0; found: {[str(c) for _, c in t.constraints if isinstance(c, Cmp) and c.sense == '<='][:3]}",
@@ -310,11 +317,11 @@ def seaweed(db, rep):
     ts = [t for t in tmpl(db, "resource:ADD_SEAWEED") if not t.aborted]
     seen = set()
     for t in ts:
-        k = (t.opt_type, str(t.mc))
+        k = (t.opt_type, str(t.mc), extra_env(t))
         if k in seen:
             continue
         seen.add(k)
-        env = f"{t.opt_type}|months{t.mc}"
+        env = f"{t.opt_type}|months{t.mc}{extra_env(t)}"
         bounds = {
             "wet>=initial": f'consts["INITIAL_SEAWEED"] - {V_("seaweed_wet_on_farm")}',
             "wet<=density*built": f'{V_("seaweed_wet_on_farm")} - consts["MAXIMUM_DENSITY"] * tc["built_area"][month]',
@@ -437,14 +444,14 @@ def term(db, rep):
             store = flag(t, "consts.STORE_FOOD_BETWEEN_YEARS")
             if entry == "resource:ADD_OUTDOOR_GROWING":
                 store = True  # crops have a single regime
-            k = store
+            ok, _ = implied_eq(t, db.spec(t, V_(fam)))
+            k = (store, extra_env(t), ok)
             if k in seen:
                 continue
             seen.add(k)
-            ok, _ = implied_eq(t, db.spec(t, V_(fam)))
             regime = "storage" if store else "first-year-only"
             rep.check(
-                ok, rule, f"{what}|to_humans|last-month|{regime}",
+                ok, rule, f"{what}|to_humans|last-month|{regime}{extra_env(t)}",
                 f"no terminal condition forces {what} to be fully used by the last month in the human-maximising round"
                 + ("" if store else " (first-year-only stock regime: the condition is commented out; stock left after "
                    "month 12 is simply lost)"),
